@@ -95,7 +95,7 @@ claimed = {
          "(an ASCII byte is never inside a longer unit). Not covered: which code points a stepped slice / reverse selects, ordering of strings beyond byte order.",
          "contracts over a ghost rune table + utf8 sweep obligations + VC generation over go/ssa + SMT"),
  'C13': ("Proved: sort_by calls a stable sort on arrays it owns, Less is strictly the decimal128.Compare / byte order of the keys, Swap swaps items and keys together; the key of every element including a single one is evaluated (caller's scope) and must be a string or number; "
-         "max/min return an element value that no other element exceeds (resp. precedes) and fail exactly when a later element has another type; max_by/min_by return an element of the input. Assumed: contract of sort.Stable. Not covered: sort (closure comparator) functional clauses, extremality for *_by.",
+         "max/min return an element value that no other element exceeds (resp. precedes) and fail exactly when a later element has another type; max_by/min_by return an element of the input. sort succeeds only on arrays whose elements are all strings or all numbers (comparator literals under contract, invariant of the hidden comparison loop of slices.SortFunc), including one-element arrays. Assumed: contract of sort.Stable; slices.SortFunc calls its comparator with every element when there are two or more. Not covered: that the result of sort is ordered (the comparator's order), extremality for mixed representations.",
          "contracts + loop invariants + VC generation over go/ssa + SMT"),
 }
 checks = []
